@@ -6,6 +6,9 @@ from mc.worlds import cellworld
 from mc.worlds.masterworld import z, zkutils, tm_master, zkbackend, fakezk
 
 
+from mc.worlds.cellworld import State  # noqa: E402
+
+
 def placement_dump(world, tree=None):
     """{(server, instance): (data dict, node)} for /placement/*/*."""
     tree = tree or world.tree
@@ -158,6 +161,88 @@ def _model_matches_record(master, srv, rec):
     names = {t for t, c in master.trait_codes.items()
              if t != 'invalid' and mask & c}
     return names == set(rec.get('traits', []))
+
+
+def mon_c02_zk(world, kind):
+    """C02 on the real master, judged on ZooKeeper records alone: after a
+    cycle with nothing outstanding, an instance that is scheduled but not
+    placed must not have an EMPTY, present, up server of its partition (inside
+    the cell, not blacked out) that offers all traits it or its tenant
+    requires and has room for it.  (An empty fitting server cannot have been
+    needed by an instance ahead in the queue: it would not be empty.)
+    Instances with an identity group, a lease, affinity limits or the
+    schedule-once flag, and blacklisted ones, are not judged here.  As the
+    statement speaks of ONE NEW instance, only the instance submitted by the
+    event just applied is judged (an older pending instance whose server
+    appeared later is outside the statement - the unchanged tree keeps such
+    an instance pending when the trait it needs was unknown at submission:
+    its trait mask keeps the INVALID bit until it is re-read)."""
+    if kind != 'reschedule' or world.undelivered or world.pending_truth:
+        return
+    newest = getattr(world, 'just_submitted', None)
+    if newest is None:
+        return
+    tree = world.tree
+    dump = placement_dump(world)
+    placed = {a for (_s, a) in dump}
+    used = {s for (s, _a) in dump}
+    present = set(tree.find(z.SERVER_PRESENCE).children)
+    blacked = set(tree.find(z.BLACKEDOUT_SERVERS).children)
+    top = set(tree.find(z.CELL).children)
+
+    def in_cell(rec):
+        name, hops = rec.get('parent'), 0
+        while name and hops < 10:
+            if name in top:
+                return True
+            node = tree.find(z.path.bucket(name))
+            if node is None or not node.data:
+                return False
+            name = json.loads(node.data.decode()).get('parent')
+            hops += 1
+        return False
+
+    for inst in sorted(tree.find(z.SCHEDULED).children):
+        if inst in placed or inst != newest:
+            continue
+        man = json.loads(tree.find(z.path.scheduled(inst)).data.decode())
+        if man.get('identity_group') or man.get('lease') or \
+                man.get('affinity_limits') or man.get('schedule_once'):
+            continue
+        if world.truth_blacklisted(inst, False):
+            continue
+        req = zk_requirements(tree, inst)
+        if req is None:
+            continue
+        world.stats['c02_zk_pending_judged'] += 1
+        need = [_units(man['memory'], 'M'), _units(man['cpu'], '%'),
+                _units(man['disk'], 'M')]
+        for sname, snode in sorted(tree.find(z.SERVERS).children.items()):
+            if sname in used or sname not in present or sname in blacked:
+                continue
+            if world.truth.get(sname) in ('down', 'frozen'):
+                continue
+            srv = world.master.servers.get(sname)
+            if srv is not None and srv.state is not State.up:
+                continue        # down / frozen by an event still standing
+            rec = json.loads(snode.data.decode()) if snode.data else {}
+            if (rec.get('partition') or '_default') != req[0]:
+                continue
+            if req[1] - set(rec.get('traits', [])):
+                continue
+            try:
+                cap = [_units(rec['memory'], 'M'), _units(rec['cpu'], '%'),
+                       _units(rec['disk'], 'M')]
+            except (KeyError, ValueError):
+                continue
+            if any(n > c for n, c in zip(need, cap)) or not in_cell(rec):
+                continue
+            world.flag('pending-although-an-empty-server-fits',
+                       'Master.reschedule',
+                       {'app': world.tmpl[inst], 'server': sname,
+                        'needs': sorted(req[1]), 'partition': req[0],
+                        'server_traits': rec.get('traits', [])})
+            break
 
 
 _READS = ('get', 'get_children', 'exists')
